@@ -124,6 +124,17 @@ def mutators(run, m, F, E):
             if re.match(r'^ST::string\s*&$', r.strip()) and k in E.sum[name]['writes'] and class_of(f) != 'ST::string':
                 n += 1
                 ok = bool(FREE_MUTATOR_OK.search(f.dem))
+                if not ok and '_ST_PRIVATE::' in f.dem.split('(')[0]:
+                    # a private helper is a step of whatever public function calls it: fine when every library caller is itself a
+                    # documented mutator of the string it hands on (an output parameter of its own, or a member allowed to change *this)
+                    callers = [m.func(c) for c in F.lib if any(name in ts for (i2, ts, k2) in F.calls.get(c, ()))]
+                    if callers and all(FREE_MUTATOR_OK.search(c.dem) or MUTATOR_OK.match(c.dem) or '_ST_PRIVATE::' in c.dem.split('(')[0] for c in callers):
+                        run.ob('R04.4', short(f.dem), True, 'private helper reached only from documented mutators (%s)' %
+                               ', '.join(short(c.dem, 40) for c in callers[:2]), disc='param %d' % k, loc=fn_loc(f))
+                        continue
+                    run.ob('R04.4', short(f.dem), None, 'private helper modifying an ST::string it is handed: its callers are not all documented mutators',
+                           disc='param %d' % k, loc=fn_loc(f))
+                    continue
                 run.ob('R04.4', short(f.dem), ok, 'documented output parameter' if ok else
                        'function modifies an ST::string passed by non-const reference', disc='param %d' % k, loc=fn_loc(f))
     return n
